@@ -414,6 +414,7 @@ func c17FirewallCase(ctx *vkit.Ctx, cs *vkit.Case) {
 		o.FwMem = c17PickMem(r) // the operator keeps the forbidden prompts in a memory index
 	}
 	o.ViaYAML, o.OmitDefaults = r.Chance(0.3), r.Chance(0.5)
+	o.CacheUnlimited = r.Chance(0.35) // max_cache_items: 0 = the documented "unlimited"
 	g := c17NewRig(ctx, cs, o)
 	defer g.close()
 	if o.FwIndexCreated {
@@ -573,6 +574,7 @@ func c17CacheCase(ctx *vkit.Ctx, cs *vkit.Case) {
 		o.FwMem = c17PickMem(r)
 	}
 	o.ViaYAML, o.OmitDefaults = r.Chance(0.3), r.Chance(0.5)
+	o.CacheUnlimited = r.Chance(0.35) // max_cache_items: 0 = the documented "unlimited"
 	var pats []c17Pattern
 	fwOff := false
 	if r.Chance(0.5) {
@@ -825,6 +827,7 @@ func c17InvalidateCase(ctx *vkit.Ctx, cs *vkit.Case) {
 		o.FwMem = c17PickMem(r)
 	}
 	o.ViaYAML, o.OmitDefaults = r.Chance(0.25), r.Chance(0.5)
+	o.CacheUnlimited = r.Chance(0.35) // max_cache_items: 0 = the documented "unlimited"
 	fam := vkit.Pick(r, c17IDFamilyNames)
 	if ctx.IsKnown("D-C17-5") {
 		fam = "underscore"
